@@ -8,7 +8,7 @@ META = {
     "bounds": {
         "quick": {"items_per_block": "0-2", "frames": "1-3 (all 2^n masks)", "labels": "lengths 0,2,3,40 and one 255 (events)",
                   "data2d": "up to 2x2 cells, <=2 points", "cameras": "0-2 (Seelab1, BTS with 70 coefficients)", "events": "0-3 events, 0-2 values"},
-        "thorough": {"items_per_block": "0-4", "frames": "1-6, 8, 10 (C05: every n from 1 to 10 for one track, 1-5 for two, 2-3 for three)", "labels": "0,1,31,127,254,255 (256-byte fields), every length 0..30 (32-byte fields)",
+        "thorough": {"items_per_block": "0-4", "frames": "1-6, 8, 10 (three items: 2-3 frames) (C05: every n from 1 to 10 for one track, 1-5 for two, 2-3 for three)", "labels": "0,1,31,127,254,255 (256-byte fields), every length 0..30 (32-byte fields)",
                      "data2d": "up to 3x2 / 2x3 cells, <=3 points", "cameras": "0-3", "events": "0-3 events, 0-3 values"},
     },
     "outside_bounds": ["larger shapes", "value round trip of a frame whose gap-deciding component is +-inf (the library stores it as a gap; sizes are checked to agree for n<=3)",
